@@ -1,6 +1,7 @@
 (* C02 — the reflective checks re-run on the SOURCE-DERIVED fact table gen/Facts.v
    (regenerated from the clang AST of the working tree on every run). *)
 From Coq Require Import List Bool Arith.
+From Coq Require Import Permutation.
 From C02 Require Import Model Proofs Sched ProofsSched.
 From C02.gen Require Import Facts.
 Import ListNotations.
@@ -76,3 +77,10 @@ Proof. split; vm_compute; reflexivity. Qed.
 
 Lemma src_pipe_claims_ok : pipe_claims_ok pipe_front_claim_src pipe_back_claim_src pipe_write_guard_src = true.
 Proof. vm_compute. reflexivity. Qed.
+
+(* WaitforAll's loop condition and the shutdown order, as found in the source *)
+Lemma src_teardown : forall queue,
+  exists done, teardown waitforall_cond_src queue = Some ([], done) /\ Permutation done (fids queue).
+Proof. change waitforall_cond_src with LOr. exact teardown_or_runs_everything. Qed.
+Lemma src_shutdown_order : sdlist_eqb shutdown_steps_src shutdown_ref = true /\ dtor_shuts_down_src = true.
+Proof. split; reflexivity. Qed.
